@@ -44,16 +44,15 @@ HASH=$( { cd "$REPO" && find rtrlib third-party -type f \( -name '*.c' -o -name 
           | sort -z | xargs -0 sha1sum; echo "$CFLAGS $SRCS"; sha1sum "$VERIF/build.sh"; } | sha1sum | cut -c1-16)
 OUT="$BUILD/lib-$FLAVOUR-$HASH"
 
-if [ -f "$OUT/.done" ]; then echo "$OUT"; exit 0; fi
+if [ -f "$OUT/.done" ]; then touch "$OUT/.done"; echo "$OUT"; exit 0; fi
 
 exec 9>"$BUILD/.lock-$FLAVOUR"
 flock 9
 if [ -f "$OUT/.done" ]; then echo "$OUT"; exit 0; fi
 
-# prune other hashes of this flavour (and driver caches that were linked against them)
-for d in "$BUILD"/lib-"$FLAVOUR"-*; do
-  [ -d "$d" ] && [ "$d" != "$OUT" ] && rm -rf "$d"
-done
+# prune old hashes of this flavour: keep the 5 most recently used (concurrent checks against
+# other trees, e.g. mutation runs, must not lose their library under their feet)
+ls -1dt "$BUILD"/lib-"$FLAVOUR"-*/.done 2>/dev/null | tail -n +6 | while read -r f; do rm -rf "$(dirname "$f")"; done
 
 rm -rf "$OUT"; mkdir -p "$OUT/gen/rtrlib" "$OUT/obj"
 cat > "$OUT/gen/rtrlib/config.h" <<EOF
